@@ -16,6 +16,18 @@ Theorem C10_proof_complete :
 Proof. exact proof_complete. Qed.
 Print Assumptions C10_proof_complete.
 
+(* Whatever byte string is passed as the root (of a tree or not, empty included), Verify accepts
+   only when that string is the hash recomputed from the stated index and total, the hash of the
+   given leaf and the aunts; a proof from which nothing can be recomputed verifies against
+   nothing (F40: it used to verify against the empty root). *)
+Theorem C10_verify_recomputes :
+  forall (H : bytes -> bytes) (root_hash leaf : bytes) (p : proof),
+    verify H root_hash leaf p = true ->
+    pf_leaf_hash p = leaf_hash H leaf /\
+    from_aunts H (pf_index p) (pf_total p) (leaf_hash H leaf) (rev (pf_aunts p)) = Some root_hash.
+Proof. exact verify_recomputes. Qed.
+Print Assumptions C10_verify_recomputes.
+
 (* A proof that verifies against the root of [items], stating the right number of leaves,
    verifies only for the item that sits at the stated index: no other
    (item, index, leaf hash, aunts) combination — or a collision of H is exhibited. *)
